@@ -277,6 +277,35 @@ class CustomExc(Exception):
         self.kw = kwargs
 
 
+# the caller's exception class may derive from any built-in exception (library code that catches
+# TypeError / KeyError / ValueError / LookupError around its own calls must not swallow it)
+class CustomTypeError(TypeError):
+    def __init__(self, *args, **kwargs):
+        super().__init__(*args)
+        self.kw = kwargs
+
+
+class CustomKeyError(KeyError):
+    def __init__(self, *args, **kwargs):
+        super().__init__(*args)
+        self.kw = kwargs
+
+
+class CustomValueError(ValueError):
+    def __init__(self, *args, **kwargs):
+        super().__init__(*args)
+        self.kw = kwargs
+
+
+class CustomRuntime(RuntimeError, AttributeError):
+    def __init__(self, *args, **kwargs):
+        super().__init__(*args)
+        self.kw = kwargs
+
+
+CUSTOM_CLASSES = (CustomExc, CustomTypeError, CustomKeyError, CustomValueError, CustomRuntime)
+
+
 def make_enforcer(rules, dflt=None, registered=(), enforce_scope=True, via='rules_obj', conf_default=None):
     """A real Enforcer holding ``rules`` (name -> rule text).  ``dflt``: None
     (library default option 'default'), ('name', n) or ('check', tree) via the
@@ -329,8 +358,9 @@ def observe(fn):
     try:
         v = fn()
         return {'o': 'ret', 'v': 1 if v else 0, 'cls': '', 'msg': ''}
-    except CustomExc as ex:
-        return {'o': 'raise', 'v': 0, 'cls': 'Custom', 'msg': '', 'xargs': list(ex.args), 'xkw': sorted(ex.kw.items())}
+    except CUSTOM_CLASSES as ex:
+        return {'o': 'raise', 'v': 0, 'cls': 'Custom', 'msg': '', 'xargs': list(ex.args), 'xkw': sorted(ex.kw.items()),
+                'exact': type(ex).__name__}
     except (policy.PolicyNotAuthorized, policy.InvalidScope, policy.InvalidContextObject,
             policy.PolicyNotRegistered) as ex:
         return {'o': 'raise', 'v': 0, 'cls': type(ex).__name__, 'msg': str(ex)}
